@@ -324,6 +324,9 @@ def run(ctx):
         if ob != mob:
             mism.append((c, ob))
         for key, what in oracles(h, s, ob.split()):
+            if key == WINDOW_KEY and ob != mob:
+                # the known finding is the loss the faithful model exhibits; a loss the model does not predict is another defect
+                key, what = "lost:tasks-not-run-where-the-model-runs-them", what + " (the model runs them along this schedule)"
             per_key.setdefault(key, []).append((c, ob, what))
     ctx.coverage.update({
         "evaluations": len(cases), "scripts": len(scripts), "preemption_bound": k,
